@@ -771,11 +771,21 @@ impl Property for C09 {
         let valid = matches!(case.fault, Fault9::Valid);
         // Raw LZMA2 has no integrity check: damage inside a payload legitimately decodes to other
         // bytes. The single-threaded reader's verdict on the damaged stream is the model then.
-        let st_model: Option<Vec<u8>> = if matches!(case.fault, Fault9::Corrupt { .. }) && fmt == Fmt::Lzma2 {
+        let mut st_model: Option<Vec<u8>> = if matches!(case.fault, Fault9::Corrupt { .. }) && fmt == Fmt::Lzma2 {
             no_panic("st-model", || st_read(fmt, &stream, dict, None, cap))?.ok()
         } else {
             None
         };
+        // LZIP has no end marker: a file cut exactly at a member boundary is a valid (shorter) file. Whether the cut
+        // left one is decided by the single-threaded reader; only then may the MT reader succeed, with the same bytes.
+        if matches!(case.fault, Fault9::Truncated { .. }) && fmt == Fmt::Lzip && !stream.is_empty() {
+            if let Ok(prefix) = no_panic("st-model", || st_read(fmt, &stream, dict, None, cap))? {
+                obs.class("cut_at_member_boundary");
+                must_fail = false;
+                st_model = Some(prefix);
+            }
+        }
+        let truncated_ok = matches!(case.fault, Fault9::Truncated { .. }) && st_model.is_some();
         let st_model = Arc::new(st_model);
         let stream = Arc::new(stream);
         let sizes = case.sizes.clone();
@@ -797,7 +807,12 @@ impl Property for C09 {
                     if was {
                         vfail("io-error-swallowed", format!("source failed, MT reader reported success with {} bytes", o.len()));
                     }
-                    if o != *d2 && st_model.as_ref().as_ref() != Some(&o) {
+                    if truncated_ok {
+                        // cut at a member boundary: exactly what the single-threaded reader returns
+                        if st_model.as_ref().as_ref() != Some(&o) {
+                            vfail("mt-reader-wrong-data", format!("file cut at a member boundary: MT reader returned {} bytes, single-threaded reader {:?}", o.len(), st_model.as_ref().as_ref().map(|v| v.len())));
+                        }
+                    } else if o != *d2 && st_model.as_ref().as_ref() != Some(&o) {
                         vfail("mt-reader-wrong-data", format!("success with {}", first_diff(&o, &d2)));
                     }
                     if must_fail {
